@@ -223,7 +223,17 @@ pub fn shrink(original: &Plan, recorded_schedule: Vec<u8>, violation: &Violation
                 if let Some(f) = o.fault {
                     if f.at_permille != 0 {
                         let mut c = best.clone();
-                        c.threads[t][i].fault = Some(crate::simenv::Fault { kind: f.kind, at_permille: 0 });
+                        c.threads[t][i].fault = Some(crate::simenv::Fault { kind: f.kind, at_permille: 0, persist: f.persist });
+                        if attempt!(c) {
+                            progress = true;
+                        }
+                    }
+                    if f.persist {
+                        // a fault that heals before a retry is the simpler one
+                        let mut c = best.clone();
+                        if let Some(cf) = c.threads[t][i].fault.as_mut() {
+                            cf.persist = false;
+                        }
                         if attempt!(c) {
                             progress = true;
                         }
